@@ -56,3 +56,13 @@ def known_keys(prop):
         if prop in e.get('properties', [e.get('property')]):
             out[e['key']] = e
     return out
+
+
+def covers(first, second):
+    """a second reading may replace the first only if it decides every obligation the first one found violated
+    (same identity up to ordinals): a reading that no longer *sees* a site must not count as a proof"""
+    import re as _re
+    # (a closure swallowed by a view hands its obligations to the enclosing body)
+    norm = lambda k: _re.sub(r'(::\{closure#\d+\})+|(#\d+|bb-ord\d+|bb\d+)', '', k)
+    have = {norm(o.key) for o in second}
+    return all(norm(o.key) in have for o in first if o.status == 'violated' and 'anchor' not in o.key and 'floor' not in o.key)
